@@ -48,7 +48,10 @@ impl Observer<Val, i64> for GProbe {
 
 type Ender = Arc<Mutex<Option<Box<dyn FnOnce() + Send>>>>;
 
+type Closed = Option<Box<dyn Fn() -> bool + Send + Sync>>;
+
 struct World {
+  closed: Closed,
   a: Subj,
   b: Subj,
   outer: SubjectThreads<Obs, i64>,
@@ -73,6 +76,13 @@ fn run_op(op: &Sexp, w: &World) {
       "e" => w.outer.clone().error(x[0].args()[0].int()),
       h => panic!("bad outer event {h}"),
     },
+    "closed" => {
+      if let Some(f) = w.closed.as_ref() {
+        let b = f();
+        let (t, j) = cur();
+        log(format!("(rb {} {t} {j})", if b { "#t" } else { "#f" }));
+      }
+    }
     "u" => {
       let f = w.ender.lock().unwrap().take();
       match f {
@@ -86,7 +96,7 @@ fn run_op(op: &Sexp, w: &World) {
   }
 }
 
-/// (ileave2 PIPE (threads (OP...) ...) (sched T...)) with PIPE = (op2 SPEC) | (flat LIMIT) | (fin)
+/// (ileave2 PIPE (threads (OP...) ...) (sched T...)) with PIPE = (op2 SPEC) | (flat LIMIT) | (fin) | (hot)
 pub fn run_ileave2(body: &[Sexp]) -> String {
   let a = Subj::default();
   let b = Subj::default();
@@ -94,7 +104,15 @@ pub fn run_ileave2(body: &[Sexp]) -> String {
   let hots: Vec<Subj> = (0..3).map(|_| Subj::default()).collect();
   let probe = GProbe { busy: Arc::default() };
   let pipe = &body[0];
+  let mut closed: Closed = None;
   let ender: Box<dyn FnOnce() + Send> = match pipe.head() {
+    // a subject alone: its subscription is a clonable handle, so is_closed() can be asked by any thread at any time
+    "hot" => {
+      let sub = a.clone().actual_subscribe(probe);
+      let s2 = sub.clone();
+      closed = Some(Box::new(move || s2.is_closed()));
+      Box::new(move || sub.unsubscribe())
+    }
     "op2" => {
       let o = apply_op2(&pipe.args()[0], a.clone().box_it(), b.clone().box_it());
       let sub = o.actual_subscribe(probe);
@@ -116,7 +134,7 @@ pub fn run_ileave2(body: &[Sexp]) -> String {
     }
     p => panic!("bad ileave2 pipe {p}"),
   };
-  let world = Arc::new(World { a, b, outer, hots, ender: Arc::new(Mutex::new(Some(ender))) });
+  let world = Arc::new(World { closed, a, b, outer, hots, ender: Arc::new(Mutex::new(Some(ender))) });
   // an optional sequential prologue (setup OP...) runs before the threads start
   if let Some(setup) = body.get(3) {
     for op in setup.args() {
